@@ -1118,6 +1118,9 @@ def judge(d, reference_winner, reference_page_match, rank):
     if section == 'presentational-hints':
         from harness.c06_real import judge_hints
         return judge_hints(meta, impl)
+    if section == 'css-wide-keywords':
+        from harness.c06_real import judge_css_wide
+        return judge_css_wide(meta, impl, d['model'])
     if section == 'character-ratio-cache':
         from harness.c06_real import judge_ratio
         return judge_ratio(meta, impl)
@@ -1342,6 +1345,9 @@ def replay(data, reference_winner, reference_page_match, rank):
         from harness import c06_real
         _, out = c06_real.run_case(meta['case'])
         return c06_real.judge_regression(meta, out)
+    if section == 'css-wide-keywords':
+        from harness import c06_real
+        return c06_real.replay_css_wide(meta)
     if section == 'initial-values':
         from weasyprint.css.properties import INITIAL_VALUES
         value = INITIAL_VALUES[meta['key']]
